@@ -4,13 +4,19 @@ import AFV.Lemmas.SetFinal
 # C29 — renames resolve with per-Einsum entries overriding defaults
 
 Specified precedence (`SetSpec.resolve`): a name resolves to the FIRST definition among
-(the Einsum's own renames, the top-level entry named like the Einsum, the top-level "default").
+(the Einsum's own renames, the top-level entries named like the Einsum, the top-level "default"
+entries), entries taken in list order.
 
-The code as it is (`Renames.effectiveRenames` ← `Einsum._eval_expressions` calling
-`renames.get_renames_for_einsum("default")`) never consults the top-level entry named like the
-Einsum: `lookup_precedence_counterexample`.  Everything else holds: `lookup_precedence_partial`,
-`effective_eq_spec_partial`, `table_eq_spec_partial`, and the expected_count check
-(`expected_count_checked`, `expected_count_mismatch_rejected`).
+Model = the code after fix 9c6cc63 (`Renames.effectiveRenames` ← `Einsum._eval_expressions` calling
+`renames.get_renames_for_einsum(self.name)`).
+
+* `lookup_precedence`       for ALL inputs the definition the code evaluates for a name is the one
+                            `resolve` selects
+* `effective_eq_spec`, `table_eq_spec`, `effectiveSpec_find`
+                            when no name is used both as tensor rename and as rank-variable rename
+                            (`KindsDisjoint`, the domain of the judge) the whole evaluated list, in
+                            order, and the resulting table are the specified ones
+* `expected_count_checked`, `expected_count_mismatch_rejected`
 -/
 namespace AFV.C29
 open AFV.SetAlg AFV.Renames AFV.SetSpec
@@ -23,37 +29,49 @@ theorem resolve_first_of (rs : List EinsumRename) (e : Einsum) (n : Name) :
         ((topLevelFor rs "default").find? (fun r => r.name == n)) := by
   simp [resolve, candidates, List.find?_append, Option.or_assoc]
 
-/-- What the code does, for every input: the Einsum's own definition, else the default one
-(tensor renames before rank-variable renames). The entry named like the Einsum is absent. -/
-theorem lookup_precedence_model (rs : List EinsumRename) (e : Einsum) (n : Name) :
-    (effectiveRenames rs e).find? (fun r => r.name == n) =
-      (e.renames.find? (fun r => r.name == n)).or
-        ((topLevelFor rs "default").find? (fun r => r.name == n)) := by
-  rw [effectiveRenames_eq, find_mergeInto, List.find?_append, find_mergeInto, List.find?_append,
-    ← mergeInto_nil_left, ← mergeInto_nil_left, find_mergeInto, find_mergeInto]
-  simp [topLevelFor, List.find?_append, Option.or_assoc]
-
-/-
-FULL STATEMENT (what C29 demands) — FALSE for the code as it is, see the counterexample:
-
-  theorem lookup_precedence (rs e n) :
-      (effectiveRenames rs e).find? (fun r => r.name == n) = resolve rs e n
--/
-
-/-- **Partial.** If the top-level entry named like the Einsum does not define `n`, the code
-resolves `n` as specified: Einsum-local first, then "default". -/
-theorem lookup_precedence_partial (rs : List EinsumRename) (e : Einsum) (n : Name)
-    (hno : ∀ r ∈ topLevelFor rs e.name, r.name ≠ n) :
+/-- **Precedence, full strength.** For every top-level section, every Einsum and every name: the
+definition the code evaluates for the name is the first of (Einsum-local, top-level entries named
+like the Einsum, top-level "default" entries). -/
+theorem lookup_precedence (rs : List EinsumRename) (e : Einsum) (n : Name) :
     (effectiveRenames rs e).find? (fun r => r.name == n) = resolve rs e n := by
-  rw [lookup_precedence_model, resolve_first_of]
-  have : (topLevelFor rs e.name).find? (fun r => r.name == n) = none := by
-    rw [List.find?_eq_none]
-    intro r hr
-    simpa using hno r hr
-  rw [this]
-  simp
+  have h := foundIn_getRenames rs e.name n
+  simp only [foundIn] at h
+  rw [resolve_first_of]
+  simp only [effectiveRenames]
+  rw [find_mergeInto, List.find?_append, find_mergeInto, List.find?_append, Option.or_assoc, h,
+    Option.or_assoc]
 
-/-- the witness: default `foo := Inputs`, top-level entry for `E0`: `foo := Outputs` -/
+/-- **Whole list.** If no name is used in both kinds and the Einsum's own rename names are distinct
+(a YAML mapping guarantees it), the list of renames the code evaluates is exactly the specified
+one, in the same order. -/
+theorem effective_eq_spec (rs : List EinsumRename) (e : Einsum)
+    (hkd : KindsDisjoint rs) (hnd : (e.renames.map (·.name)).Nodup) :
+    effectiveRenames rs e = effectiveSpec rs e := by
+  obtain ⟨hT, hR⟩ := getRenames_kindsDisjoint hkd e.name
+  simp only [effectiveRenames, effectiveSpec]
+  rw [mergeInto_mergeInto_eq hnd, List.append_assoc]
+  apply dedupRenames_congr_right
+  calc dedupRenames ((getRenamesForEinsum rs e.name).tensorAccesses ++
+          (getRenamesForEinsum rs e.name).rankVariables)
+      = dedupRenames ((topT rs e.name ++ topT rs "default") ++
+          (getRenamesForEinsum rs e.name).rankVariables) := dedupRenames_congr_left _ hT
+    _ = dedupRenames ((topT rs e.name ++ topT rs "default") ++
+          (topR rs e.name ++ topR rs "default")) := dedupRenames_congr_right _ hR
+
+/-- the specified evaluation list is consistent with `resolve` on the judge's domain -/
+theorem effectiveSpec_find (rs : List EinsumRename) (e : Einsum) (n : Name)
+    (hkd : KindsDisjoint rs) (hnd : (e.renames.map (·.name)).Nodup) :
+    (effectiveSpec rs e).find? (fun r => r.name == n) = resolve rs e n := by
+  rw [← effective_eq_spec rs e hkd hnd]; exact lookup_precedence rs e n
+
+/-- **Whole table.** Under the same hypotheses the symbol table the Einsum's renames produce is the
+specified one (stage 1: before the workload-level `persistent_tensors` step, see C22). -/
+theorem table_eq_spec (w : Workload) (rs : List EinsumRename) (e : Einsum)
+    (hkd : KindsDisjoint rs) (hnd : (e.renames.map (·.name)).Nodup) :
+    einsumTable1 w rs e = specTable1 w rs e := by
+  simp only [einsumTable1, specTable1, evaluatedRenames_eq_with, effective_eq_spec rs e hkd hnd]
+
+/-- regression witness of the repaired defect: default `foo := Inputs`, entry `E0`: `foo := Outputs` -/
 def cexRs : List EinsumRename :=
   [ { name := "default", tensorAccesses := [{ name := "foo", source := .name "Inputs", expectedCount := none }],
       rankVariables := [] },
@@ -66,48 +84,22 @@ def cexE : Einsum :=
     renames := [] }
 def cexW : Workload := { einsums := [cexE], persistentTensors := none }
 
-/-- **Counterexample (model = code as it is).** `foo` must resolve to the per-Einsum source
-`Outputs` (= {B}); the code resolves it to the default source `Inputs` (= {A}). -/
-theorem lookup_precedence_counterexample :
-    (resolve cexRs cexE "foo").map (·.source) = some (.name "Outputs") ∧
-    ((effectiveRenames cexRs cexE).find? (fun r => r.name == "foo")).map (·.source) = some (.name "Inputs") ∧
-    (match einsumTable cexW cexRs cexE, specTable cexW cexRs cexE with
-     | .ok t, .ok ts => ((lookup t "foo").map (·.inst) == some ["A"]) &&
-                        ((lookup ts "foo").map (·.inst) == some ["B"])
-     | _, _ => false) = true := by
+/-- on the former counterexample the model now resolves `foo` to the per-Einsum source (= {B}) -/
+example :
+    ((effectiveRenames cexRs cexE).find? (fun r => r.name == "foo")).map (·.source) = some (.name "Outputs") ∧
+    (match einsumTable cexW cexRs cexE with
+     | .ok t => (lookup t "foo").map (·.inst) == some ["B"]
+     | _ => false) = true := by
   decide
 
-/-- **Partial, whole list.** With no top-level entry named like the Einsum (and the Einsum's own
-rename names distinct, as a YAML mapping guarantees) the list of renames the code evaluates is
-exactly the specified one, in the same order. -/
-theorem effective_eq_spec_partial (rs : List EinsumRename) (e : Einsum)
-    (hno : topLevelFor rs e.name = []) (hnd : (e.renames.map (·.name)).Nodup) :
-    effectiveRenames rs e = effectiveSpec rs e := by
-  rw [effectiveRenames_eq, effectiveSpec, candidates, hno, List.append_nil, topLevelFor,
-    ← List.append_assoc, dedupRenames_append, dedupRenames_append, dedupRenames_of_nodup hnd,
-    mergeInto_eq, mergeInto_eq, dedupRenames_idem, dedupRenames_idem]
-  congr 1
-  apply List.filter_congr
-  intro x _
-  congr 1
-  rw [hasName_append, hasName_append]
-  cases hl : hasName e.renames x.name with
-  | true => simp
-  | false =>
-    simp only [Bool.false_or]
-    rw [← hasName_dedupRenames (topT rs "default")]
-    rw [Bool.eq_iff_iff]
-    simp only [hasName_iff, List.mem_filter, Bool.not_eq_true']
-    constructor
-    · rintro ⟨r, ⟨hr, _⟩, hrn⟩; exact ⟨r, hr, hrn⟩
-    · rintro ⟨r, hr, hrn⟩; exact ⟨r, ⟨hr, by rw [hrn]; exact hl⟩, hrn⟩
-
-/-- **Partial, whole table.** Under the same hypothesis the table the architecture sees is the
-specified stage-1 table (the specified precedence, `Persistent` = flagged tensors). -/
-theorem table_eq_spec_partial (w : Workload) (rs : List EinsumRename) (e : Einsum)
-    (hno : topLevelFor rs e.name = []) (hnd : (e.renames.map (·.name)).Nodup) :
-    einsumTable w rs e = specTable1 w rs e := by
-  simp only [einsumTable, specTable1, evaluatedRenames_eq_with, effective_eq_spec_partial rs e hno hnd]
+/-- two "default" entries giving `input` in different kinds (outside `KindsDisjoint`): the code, and
+the model, keep the definition of the first entry in list order -/
+example :
+    ((effectiveRenames
+        [ { name := "default", tensorAccesses := [], rankVariables := [⟨"input", .name "m", none⟩] },
+          { name := "default", tensorAccesses := [⟨"input", .name "All", none⟩], rankVariables := [] } ]
+        cexE).map (·.source)) = [.name "m"] := by
+  decide
 
 /-! ## expected_count -/
 
@@ -196,8 +188,14 @@ def exE0 : Einsum :=
     accesses := [⟨"A", false, false, ["m", "k"]⟩, ⟨"W", false, true, ["k"]⟩, ⟨"B", true, false, ["m"]⟩] }
 def exW : Workload := { einsums := [exE0, exE1], persistentTensors := none }
 
-example : ∀ r ∈ topLevelFor exRs exE1.name, r.name ≠ "weight" := by decide
-example : topLevelFor exRs exE1.name = [] ∧ (exE1.renames.map (·.name)).Nodup := by decide
+example : KindsDisjoint exRs ∧ (exE1.renames.map (·.name)).Nodup := by
+  refine ⟨?_, by decide⟩
+  intro er1 h1 er2 h2 r1 hr1 r2 hr2
+  simp only [exRs, List.mem_singleton] at h1 h2
+  subst h1 h2
+  simp only [List.mem_cons, List.not_mem_nil, or_false] at hr1 hr2
+  subst hr2
+  rcases hr1 with rfl | rfl <;> decide
 /-- local `weight` wins over the default one; `input`, `red` come from the default -/
 example : (effectiveRenames exRs exE1).map (·.name) = ["weight", "input", "red"] := by decide
 example : ((resolve exRs exE1 "weight").map (·.source)) = some (.name "W") := by decide
